@@ -69,11 +69,22 @@ func replay(raw json.RawMessage) (string, string) {
 	return k, m
 }
 
+// parsers and the composer are long-lived (one per configuration for the whole process), as on a real node.
+var (
+	parsers   = map[string]*operationparser.Parser{}
+	longLived = doccomposer.New()
+)
+
 func parserFor(enabled []string) *operationparser.Parser {
+	key := strings.Join(enabled, ",")
+	if p, ok := parsers[key]; ok {
+		return p
+	}
 	p := wire.BaseProtocol()
 	p.Patches = enabled
 	p.MaxDeltaSize = 1 << 20
-	return operationparser.New(p)
+	parsers[key] = operationparser.New(p)
+	return parsers[key]
 }
 
 func toPatches(l []interface{}) ([]patch.Patch, bool) {
@@ -254,7 +265,7 @@ func buildDoc(c *Case) (document.Document, string) {
 	}
 	var d document.Document
 	var err error
-	if p := ev.Catch(func() { d, err = doccomposer.New().ApplyPatches(make(document.Document), pre) }); p != "" || err != nil {
+	if p := ev.Catch(func() { d, err = longLived.ApplyPatches(make(document.Document), pre) }); p != "" || err != nil {
 		return nil, "prefix does not apply"
 	}
 	return d, ""
@@ -270,7 +281,7 @@ func applyGuarded(d document.Document, ps []patch.Patch) (out document.Document,
 	ch := make(chan res, 1)
 	go func() {
 		var r res
-		r.p = ev.Catch(func() { r.d, r.err = doccomposer.New().ApplyPatches(d, ps) })
+		r.p = ev.Catch(func() { r.d, r.err = longLived.ApplyPatches(d, ps) })
 		ch <- r
 	}()
 	select {
